@@ -49,7 +49,8 @@ Definition is_done (p : pos) : bool :=
 (** one macro step of the harness and what it saw afterwards *)
 Inductive mlabel :=
 | MArrive (t : tid) (n : name)
-| MRelease (t : tid) (a : act).
+| MRelease (t : tid) (a : act)
+| MSetCert (n : name) (c : cert).     (* the harness changes the state of a cached certificate (revokes it) *)
 
 Record seen := Seen {
   s_pos : list (tid * name * pos);   (* every goroutine so far *)
@@ -63,6 +64,7 @@ Definition apply_label (s : state) (l : mlabel) : option state :=
   match l with
   | MArrive t n => step s (LArrive t n)
   | MRelease t a => step s (LThread t a)
+  | MSetCert n c => step s (LCacheSet n c)
   end.
 
 Definition names_in (m : name -> option chan) (names : list name) : list name :=
@@ -135,7 +137,7 @@ Definition label_is_bad (l : mlabel) : bool :=
   end.
 
 (** the goroutine a label acts on *)
-Definition label_tid (l : mlabel) : tid := match l with MArrive t _ | MRelease t _ => t end.
+Definition label_tid (l : mlabel) : tid := match l with MArrive t _ | MRelease t _ => t | MSetCert _ _ => O end.
 Definition name_of (o : seen) (t : tid) : option name :=
   match find (fun x => Nat.eqb (fst (fst x)) t) (s_pos o) with Some x => Some (snd (fst x)) | None => None end.
 
@@ -222,6 +224,7 @@ Definition get_mlabel : dec mlabel :=
    match t with
    | 0%N => i <- get_nat ;; n <- get_nat ;; ret (MArrive i n)
    | 1%N => i <- get_nat ;; a <- get_act ;; ret (MRelease i a)
+   | 2%N => n <- get_nat ;; c <- get_cert_w ;; ret (MSetCert n c)
    | _ => fun _ => None
    end).
 Definition get_seen : dec seen :=
